@@ -348,6 +348,16 @@ theorem step_ec (s : PState) (op : Op) (hb : EB s) (h : EC s) : EC (step s op) :
         show 1 ≤ ebal (c, id) t s.log + 1
         omega
       · exact h
+  | intoInner f =>
+    simp only [step]
+    cases ht : take f s.owners with
+    | none => exact h
+    | some p =>
+      obtain ⟨o, rest⟩ := p
+      simp only []
+      split
+      · exact ec_doClose _ (ec_owners s h rest) _
+      · exact h
   | setDefault t c => exact h
 
 /-! ### silence after the last close -/
@@ -748,6 +758,21 @@ theorem step_sok (s : PState) (op : Op) (hrc : RC s) (hb : EB s) (hc : EC s) (h 
               omega
           · exact hafter
         · intro q hq; rw [doExit_bal]; exact hafter q hq
+      · exact h
+  | intoInner f =>
+    simp only [step]
+    cases ht : take f s.owners with
+    | none => exact h
+    | some p =>
+      obtain ⟨o, rest⟩ := p
+      simp only []
+      split
+      · have hpos : ∀ q, o.ref = some q → 1 ≤ bal q s.log := by
+          intro q hq
+          have := own_pos_of_take q f _ o rest ht hq
+          have := hrc q
+          omega
+        exact sok_doClose { s with owners := rest } h _ (fun q hq => hpos q hq)
       · exact h
   | setDefault t c => exact h
 
